@@ -259,7 +259,11 @@ class World:
             if not pool:
                 break
             hot = [h for h in self.hot if h in pool]
-            out.append(r.choice(hot) if (hot and r.random() < 0.6) else r.choice(pool))
+            ctx = [h for h in pool if self.mdib.context_states.descriptor_handle.get(h)]
+            if ctx and r.random() < 0.3:
+                out.append(r.choice(ctx))       # a context descriptor that has states (multi-state entity)
+            else:
+                out.append(r.choice(hot) if (hot and r.random() < 0.6) else r.choice(pool))
         return out
 
     def remember_entities(self, handles):
@@ -350,6 +354,15 @@ class World:
                         got.append(h)
                         if r.random() < 0.8:
                             script['calls'].append(['setBody', h, r.randrange(1000)])
+                elif z < 0.66 and chs:
+                    # entity interface: update an existing context state through write_entity, possibly with an entity fetched
+                    # earlier (preferably one whose descriptor was changed since)
+                    ripe = [c.Handle for c in self.mdib.context_states.objects
+                            if c.DescriptorHandle in self.stale_entities and self._outdated(c.DescriptorHandle)]
+                    if ripe and r.random() < 0.7:
+                        script['calls'].append(['writeUpd', r.choice(sorted(ripe)), r.randrange(1000), True])
+                    else:
+                        script['calls'].append(['writeUpd', r.choice(chs), r.randrange(1000), r.random() < 0.5])
                 elif z < 0.7 and got:
                     script['calls'].append(['setBody', r.choice(got), r.randrange(1000)])
                 elif z < 0.8 and got:
@@ -360,7 +373,10 @@ class World:
                     # add_state with a container built by the application; sometimes with the handle of an existing state
                     h = r.choice(chs) if (chs and r.random() < 0.35) else f'as{self.new_n}'
                     self.new_n += 1
-                    script['calls'].append([r.choice(['addState', 'writeNew']), r.choice(cds), h, r.randrange(1000)])
+                    which = r.choice(['addState', 'writeNew'])
+                    if which == 'addState' and r.random() < 0.25:
+                        h = f'uuid{self.new_n}'      # a container without Handle: the transaction has to give it one
+                    script['calls'].append([which, r.choice(cds), h, r.randrange(1000)])
                     got.append(h)
                 elif chs:
                     script['calls'].append(['del', r.choice(chs) if r.random() < 0.8 else 'nohandle'])
@@ -379,8 +395,11 @@ class World:
             z = r.random()
             if z < 0.3 and leafish:
                 multi = [d for d in leafish if len(self.mdib.context_states.descriptor_handle.get(d, [])) >= 2]
+                withstates = [d for d in leafish if self.mdib.context_states.descriptor_handle.get(d)]
                 if multi and r.random() < 0.3:
                     h = r.choice(multi)      # a context descriptor with several context states: all of them follow the descriptor
+                elif withstates and r.random() < 0.15:
+                    h = r.choice(withstates)
                 else:
                     h = self.pick(leafish) if r.random() < 0.95 else 'nohandle'
                 script['calls'].append(['getDescr', h])
@@ -674,13 +693,48 @@ class World:
                 if d is None or not d.is_context_descriptor:
                     return
                 st = m.data_model.mk_state_container(d)
+                anonymous = h.startswith('uuid')
                 st.Handle = h
                 st.descriptor_container = None
                 self.mutate_state(st, n)
-                # add_state(container) = mk_context_state with an explicit handle + the content of the container
-                self.emit(f'mk {H(dh)} {H(h)} 1 0 {self.sbody(st)} {int(self.clock.t)}', 'ok')
-                mgr.add_state(st)
+                # add_state(container) = mk_context_state with an explicit handle (or a generated one) + the content of the container
+                self.emit(f'mk {H(dh)} {H(h)} {0 if anonymous else 1} 0 {self.sbody(st)} {int(self.clock.t)}', 'ok')
+                if anonymous:
+                    st.Handle = None
+                    orig = self._tr.uuid
+                    self._tr.uuid = types.SimpleNamespace(uuid4=lambda: types.SimpleNamespace(hex=h))
+                    try:
+                        mgr.add_state(st)
+                    finally:
+                        self._tr.uuid = orig
+                else:
+                    mgr.add_state(st)
                 info['handed'][h] = st
+            elif op == 'writeUpd':
+                _, h, n, stale = call
+                cur = m.context_states.handle.get_one(h, allow_none=True)
+                if cur is None:
+                    return
+                dh = cur.DescriptorHandle
+                ent = None
+                old_ent = self.stale_entities.get(dh) if stale else None
+                if old_ent is not None and old_ent.is_multi_state and h in old_ent.states:
+                    o = old_ent.states[h]
+                    same = (o.ContextAssociation, o.BindingMdibVersion, o.UnbindingMdibVersion, o.BindingStartTime, o.BindingEndTime) == \
+                           (cur.ContextAssociation, cur.BindingMdibVersion, cur.UnbindingMdibVersion, cur.BindingStartTime, cur.BindingEndTime)
+                    if same:    # (the model's calls cannot express a write of old binding fields; content and versions are what is stale)
+                        ent = type(old_ent)(m, copy.deepcopy(old_ent.descriptor), copy.deepcopy(list(old_ent.states.values())))
+                if ent is None:
+                    ent = m.entities.by_handle(dh)
+                st = ent.states[h]
+                self.mutate_state(st, n)
+                # write_entity of an existing context state = get_context_state + the content of the entity's state
+                self.emit(f'get {H(h)}', 'ok')
+                if h not in mgr._state_updates:  # noqa: SLF001  (otherwise both sides refuse the call)
+                    self.emit(f'setBody {H(h)} {self.sbody(st)}', 'ok')
+                    mgr.write_entity(ent, [h])
+                else:
+                    mgr.get_context_state(h)
             elif op == 'writeNew':
                 # entity interface: a new context state (fresh handle, or the handle of a state of ANOTHER descriptor)
                 _, dh, h, n = call
